@@ -7,13 +7,20 @@ them (in creation order), `OFlush e` lets the e-th body execution pass the gate 
 Bodies follow scripts[e] (e = index of the body execution): gates, calls / dirty() issued from
 inside the running body, then return or raise.  After the op list everything left is drained
 (collect, then lowest gated execution first).  Every lane is its own BatchBase instance and the
-harness picks the lane to flush through get_priority(), so all control goes through public API."""
+harness picks the lane to flush through get_priority(), so all control goes through public API.
+
+Every callable exists in NGEN "generations": the def / class statements below are executed NGEN
+times (twice by a loop in one scope = the same name defined again in the same scope, once more by
+a second invocation of the enclosing factory = closures of a factory), giving distinct function
+objects, classes and DeduplicateDecorators that all have the same __module__ and __qualname__ and
+all share the class-level DeduplicateDecorator.tasks dict."""
 import inspect
 import queue
 import threading
 
 import _common
 import asynq
+import qcore
 from asynq import asynq as asynq_dec
 from asynq.batching import BatchBase, BatchItemBase
 from asynq.tools import deduplicate, DeduplicateDecorator
@@ -28,8 +35,12 @@ class VErr(Exception):
         self.vid = i
 
 
+NGEN = 3
+
+
 class Inst(object):
-    def __init__(self, i):
+    def __init__(self, g, i):
+        self.g = g
         self.i = i
 
 
@@ -86,7 +97,7 @@ def treeval(v):
     if v is None:
         return "ANone"
     if isinstance(v, Inst):
-        return {"AInst": [v.i]}
+        return {"AInst": [v.g, v.i]}
     if isinstance(v, int) and not isinstance(v, bool):
         return {"AInt": [v]}
     return {"AOther": [{"s": repr(v)[:40]}]}
@@ -128,6 +139,29 @@ class Case(object):
 
     # ---- the callables under test (fresh per case; the signatures are mirrored in Dedup.v `sigs`)
     def make_callables(self):
+        self.fns = {}
+        self.insts = {}
+        self.C = {}
+        self.define([0, 1])          # one scope, the names defined twice
+        self.define([2])             # the factory invoked again
+        assert sorted(self.fns) == list(range(NGEN))
+        names = set()
+        objs = set()
+        for g in self.fns:
+            for f in self.fns[g] + [self.C[g].__dict__["m"], self.C[g].__dict__["s"]]:
+                if f is not None:
+                    o = qcore.get_original_fn(f)
+                    o = getattr(o, "__func__", o)
+                    names.add((o.__module__, o.__qualname__))
+                    objs.add(id(o))
+        if len(names) != 7 or len(objs) != 7 * NGEN:
+            raise RuntimeError("harness: generations do not share module/qualname: %r" % sorted(names))
+        self.kinds = ["function", "function", "function", "function", "method", "static", "function"]
+        self.sigs = [inspect.signature(f) for f in (
+            lambda a, b=0: 0, lambda a, b=0: 0, lambda a, b, c=5, *, d=7: 0, lambda a, **kw: 0,
+            lambda self, a, b=0: 0, lambda a, b=0: 0, lambda a, *rest, d=0: 0)]
+
+    def define(self, gens):
         case = self
 
         def body(*bound):
@@ -160,57 +194,55 @@ class Case(object):
                 return a[0]
             raise VErr(a[0])
 
-        @deduplicate()
-        @asynq_dec()
-        def f0(a, b=0):
-            return (yield from body(a, b))
-
-        @deduplicate()
-        @asynq_dec()
-        def f1(a, b=0):
-            return (yield from body(a, b))
-
-        @deduplicate()
-        @asynq_dec()
-        def f2(a, b, c=5, *, d=7):
-            return (yield from body(a, b, c, d))
-
-        @deduplicate()
-        @asynq_dec()
-        def f3(a, **kw):
-            return (yield from body(a, kw))
-
-        class C(Inst):
+        for g in gens:
             @deduplicate()
             @asynq_dec()
-            def m(self, a, b=0):
-                return (yield from body(self, a, b))
-
-            @deduplicate()
-            @asynq_dec()
-            @staticmethod
-            def s(a, b=0):
+            def f0(a, b=0):
                 return (yield from body(a, b))
 
-        @deduplicate()
-        @asynq_dec()
-        def f6(a, *rest, d=0):
-            return (yield from body(a, rest, d))
+            @deduplicate()
+            @asynq_dec()
+            def f1(a, b=0):
+                return (yield from body(a, b))
 
-        self.insts = [C(0), C(1)]
-        self.fns = [f0, f1, f2, f3, None, None, f6]
-        self.C = C
-        self.kinds = ["function", "function", "function", "function", "method", "static", "function"]
-        self.sigs = [inspect.signature(f) for f in (
-            lambda a, b=0: 0, lambda a, b=0: 0, lambda a, b, c=5, *, d=7: 0, lambda a, **kw: 0,
-            lambda self, a, b=0: 0, lambda a, b=0: 0, lambda a, *rest, d=0: 0)]
+            @deduplicate()
+            @asynq_dec()
+            def f2(a, b, c=5, *, d=7):
+                return (yield from body(a, b, c, d))
 
-    def callable(self, fn, inst):
+            @deduplicate()
+            @asynq_dec()
+            def f3(a, **kw):
+                return (yield from body(a, kw))
+
+            class C(Inst):
+                @deduplicate()
+                @asynq_dec()
+                def m(self, a, b=0):
+                    return (yield from body(self, a, b))
+
+                @deduplicate()
+                @asynq_dec()
+                @staticmethod
+                def s(a, b=0):
+                    return (yield from body(a, b))
+
+            @deduplicate()
+            @asynq_dec()
+            def f6(a, *rest, d=0):
+                return (yield from body(a, rest, d))
+
+            self.insts[g] = [C(g, 0), C(g, 1)]
+            self.fns[g] = [f0, f1, f2, f3, None, None, f6]
+            self.C[g] = C
+
+    def callable(self, fn, gen, inst):
+        g = gen % NGEN
         if fn == 4:
-            return self.insts[inst % 2].m
+            return self.insts[g][inst % 2].m
         if fn == 5:
-            return self.C.s if inst % 2 == 0 else self.insts[1].s
-        return self.fns[fn]
+            return self.C[g].s if inst % 2 == 0 else self.insts[g][1].s
+        return self.fns[g][fn]
 
     def tid_of(self, task):
         k = id(task)
@@ -220,11 +252,11 @@ class Case(object):
         return self.tids[k]
 
     # ---- reference binding: Python's own inspect.signature().bind, independent of get_args_tuple
-    def refbind(self, fn, inst, pos, kw):
+    def refbind(self, fn, gen, inst, pos, kw):
         sig = self.sigs[fn]
         args = [pyval(p) for p in pos]
         if fn == 4:
-            args = [self.insts[inst % 2]] + args
+            args = [self.insts[gen % NGEN][inst % 2]] + args
         kwargs = {NAMES[k[""][0]]: pyval(k[""][1]) for k in kw}
         try:
             b = sig.bind(*args, **kwargs)
@@ -249,13 +281,13 @@ class Case(object):
             self.worker = Worker()
         return self.worker.run(f)
 
-    def do_call(self, ctx, thread, fn, inst, pos, kw):
+    def do_call(self, ctx, thread, fn, gen, inst, pos, kw):
         cid = self.ncall
         self.ncall += 1
-        c = self.callable(fn, inst)
+        c = self.callable(fn, gen, inst)
         args = [pyval(p) for p in pos]
         kwargs = {NAMES[k[""][0]]: pyval(k[""][1]) for k in kw}
-        bnd = self.refbind(fn, inst, pos, kw)
+        bnd = self.refbind(fn, gen, inst, pos, kw)
         inflight = [self.tids[id(t)] for t in self.keep if not t.is_computed()]
         running = [self.tids[id(t)] for t in self.keep if t.running]
         known = len(self.tids)
@@ -271,23 +303,23 @@ class Case(object):
             res = {"RTask": [tid, "true" if tid >= known else "false"]}
             self.fresh.append((cid, t))
         self.trace.append({"ECall": [cid, ctx, res, bnd]})
-        self.seq.append(("call", dict(cid=cid, ctx=ctx, thread=thread, fn=fn, inst=(inst % 2 if fn in (4, 5) else 0),
+        self.seq.append(("call", dict(cid=cid, ctx=ctx, thread=thread, fn=fn, gen=gen % NGEN, inst=(inst % 2 if fn in (4, 5) else 0),
                                       kind=self.kinds[fn], npos=len(pos), kws=sorted(kwargs), bound=bnd, tid=tid,
                                       new=(tid is not None and tid >= known), inflight=inflight, running=running,
                                       was_computed=(None if t is None else bool(t.is_computed())))))
 
-    def do_dirty(self, ctx, thread, fn, inst, pos, kw):
-        c = self.callable(fn, inst)
+    def do_dirty(self, ctx, thread, fn, gen, inst, pos, kw):
+        c = self.callable(fn, gen, inst)
         args = [pyval(p) for p in pos]
         kwargs = {NAMES[k[""][0]]: pyval(k[""][1]) for k in kw}
-        bnd = self.refbind(fn, inst, pos, kw)
+        bnd = self.refbind(fn, gen, inst, pos, kw)
         try:
             self.on_thread(thread, lambda: c.dirty(*args, **kwargs))
             ok = "true"
         except TypeError:
             ok = "false"
         self.trace.append({"EDirty": [ctx, ok]})
-        self.seq.append(("dirty", dict(ctx=ctx, thread=thread, fn=fn, inst=(inst % 2 if fn in (4, 5) else 0), bound=bnd, ok=ok)))
+        self.seq.append(("dirty", dict(ctx=ctx, thread=thread, fn=fn, gen=gen % NGEN, inst=(inst % 2 if fn in (4, 5) else 0), bound=bnd, ok=ok)))
 
     # ---- conductor
     def _skip_invalid(self):
